@@ -65,3 +65,27 @@ def valid929 (k : Nat) (word : List Nat) : Bool :=
   (List.range k).all (fun i => evalMod 929 word (powMod 3 (i + 1) 929) == 0) && word.all (· < 929)
 
 end BV.Spec.RS
+
+namespace BV.Spec.RS
+
+/-! ### polynomial arithmetic over a binary field (coefficient lists, highest degree first) -/
+
+def stripZeros : List Nat → List Nat
+  | 0 :: rest => stripZeros rest
+  | l => l
+
+def polyAddRaw (p q : List Nat) : List Nat :=
+  let n := max p.length q.length
+  let p' := List.replicate (n - p.length) 0 ++ p
+  let q' := List.replicate (n - q.length) 0 ++ q
+  List.zipWith (· ^^^ ·) p' q'
+
+def BinField.polyMulRaw (f : BinField) (p q : List Nat) : List Nat :=
+  p.foldl (fun acc a => polyAddRaw (acc ++ [0]) (q.map (f.mul a))) []
+
+/-- equality of polynomials regardless of leading zeros -/
+def polyEq (p q : List Nat) : Bool := stripZeros p == stripZeros q
+
+def polyDeg (p : List Nat) : Int := (stripZeros p).length - 1
+
+end BV.Spec.RS
